@@ -47,6 +47,12 @@ def disj(cs):
     return z3.Or(*[_zc(c) for c in cs]) if cs else False
 
 
+def _known(ctx, fid):
+    """a recorded finding whose pinned witness still fails on this tree: paths of its class are
+    not reported again (the witness line is), the rest of the oracle is still checked where possible"""
+    return fid in (ctx.params.get("known_active") or ())
+
+
 def _dt():
     import sharepoint2text.parsing.extractors.data_types as dt
     return dt
@@ -402,6 +408,441 @@ def _k3_parts(tier):
             {"C": 2, "N": 1, "L": 1, "typed_header": True}]
 
 
+# ---------------------------------------------------------------------------------------
+# K2  xlsx: _read_sheet_data / _read_content_from_workbook on a fake worksheet
+# ---------------------------------------------------------------------------------------
+
+def _xlsx():
+    import sharepoint2text.parsing.extractors.ms_modern.xlsx_extractor as m
+    return m
+
+
+class _WS:
+    """openpyxl read-only worksheet as the extractor uses it: iter_rows(values_only=True)"""
+
+    def __init__(self, rows):
+        self._rows = [tuple(r) for r in rows]
+
+    def iter_rows(self, values_only=False, **k):
+        return iter(self._rows)
+
+
+class _WB:
+    def __init__(self, sheets):
+        self._s = sheets
+
+    def __getitem__(self, name):
+        return self._s[name]
+
+
+_TD = datetime.timedelta(hours=30, minutes=1)
+XLSX_TYPED = [7, 0, -3, 2.5, 1e20, True, False, "#DIV/0!",
+              datetime.datetime(2024, 1, 2, 3, 4, 5), datetime.date(2024, 1, 2), datetime.time(3, 4, 5), _TD]
+
+
+def _iso_equal(got, v):
+    try:
+        if isinstance(v, datetime.datetime):
+            return datetime.datetime.fromisoformat(got) == v
+        if isinstance(v, datetime.date):
+            return datetime.date.fromisoformat(got) == v
+        if isinstance(v, datetime.time):
+            return datetime.time.fromisoformat(got) == v
+    except Exception:
+        return False
+    return False
+
+
+def _typed_value_kept(got, v):
+    """numbers and booleans keep value and type, dates/times come back as ISO strings"""
+    if isinstance(v, (datetime.datetime, datetime.date, datetime.time)):
+        return isinstance(got, str) and _iso_equal(got, v)
+    if isinstance(v, datetime.timedelta):
+        # a duration: the value itself or a text that names it
+        return got == v or (isinstance(got, str) and ("6:01:00" in got or "30:01:00" in got or "PT30H1M" in got.upper()))
+    return type(got) is type(v) and got == v
+
+
+def _typed_header_text(got, v):
+    """a header cell holds the text of the source cell"""
+    if got == v and type(got) is type(v):
+        return True
+    if not isinstance(got, str):
+        return False
+    if got == str(v) or _iso_equal(got.replace(" ", "T", 1) if isinstance(v, datetime.datetime) else got, v):
+        return True
+    try:
+        return isinstance(v, (int, float)) and not isinstance(v, bool) and float(got) == float(v)
+    except Exception:
+        return False
+
+
+def _sym_text(ctx, name, n):
+    """text of n symbolic characters: TAB..CR, space and the printable ASCII range (the control
+    codes 14..31 are left out: str.strip() counts 28..31 as white space, the engine's model does not)"""
+    t = ctx.fresh_chars(name, n, 9, 122)
+    for ch in (t if ctx.concrete else t.c):
+        if ctx.concrete:
+            ctx.assume(ord(ch) <= 13 or ord(ch) >= 32)
+        else:
+            ctx.solver.add(z3.Or(ch.z <= 13, ch.z >= 32))    # satisfiable on its own: no check needed
+    return t
+
+
+def _is_blank_text(s):
+    """text consisting of white space only (forks on symbolic characters)"""
+    return len(s.strip()) == 0
+
+
+def k2_xlsx_sheet(ctx):
+    x = _xlsx()
+    mode = ctx.params["mode"]
+    r, c = ctx.params["r"], ctx.params["c"]
+    # ---- source grid -------------------------------------------------------------------
+    grid, kinds = [], []
+    if mode == "typed":
+        # header row of plain texts (or typed, when the probe sits there), one typed probe cell
+        pos = ctx.choice("probe_cell", r * c)
+        tv = XLSX_TYPED[ctx.choice("typed_value", len(XLSX_TYPED))]
+        for i in range(r):
+            row, krow = [], []
+            for j in range(c):
+                if i * c + j == pos:
+                    row.append(tv)
+                    krow.append("typed")
+                else:
+                    row.append(f"t{i}{j}")
+                    krow.append("text")
+            grid.append(row)
+            kinds.append(krow)
+    else:
+        fixed_first = ctx.params.get("first_row")
+        for i in range(r):
+            row, krow = [], []
+            for j in range(c):
+                if i == 0 and fixed_first is not None:
+                    k = fixed_first[j]
+                else:
+                    k = ctx.choice(f"kind{i}_{j}", 2)
+                if k == 0:
+                    row.append(None)
+                    krow.append("none")
+                else:
+                    row.append(_sym_text(ctx, f"t{i}_{j}", ctx.params.get("tlen", 1)))
+                    krow.append("text")
+            grid.append(row)
+            kinds.append(krow)
+    wb = _WB({"S1": _WS(grid)})
+    ctx.hash_universe = set()
+    with ctx.shadow(x, str=_StrShadow, _format_sheet_as_text=lambda rows: ""):
+        try:
+            sheets = x._read_content_from_workbook(wb, ["S1"])
+        except Exception as e:
+            ctx.fail("read-raised", exc=type(e).__name__, msg=str(e)[:100])
+    ctx.require(len(sheets) == 1, "sheet-count-differs")
+    tbl = sheets[0].get_table()
+    dim = sheets[0].get_dim()
+    # ---- reference: the used range of the sheet -----------------------------------------
+    empty = [[kinds[i][j] == "none" or (kinds[i][j] == "text" and _is_blank_text(grid[i][j]))
+              for j in range(c)] for i in range(r)]
+    R = max([i + 1 for i in range(r) if not all(empty[i])], default=0)
+    C = max([j + 1 for i in range(R) for j in range(c) if not empty[i][j]], default=0)
+    first_row_cells = sum(1 for j in range(C) if not empty[0][j]) if R else 0
+    shape = dict(rows=R, cols=C, got_rows=len(tbl), got_cols=[len(t) for t in tbl],
+                 first_row_cells=first_row_cells)
+    if ctx.perturb == "no_trim":
+        R, C = r, c
+    skip = 0
+    if first_row_cells == 1 and C > 1 and len(tbl) == R - 1 and _known(ctx, "C13-xlsx-single-cell-first-row-dropped"):
+        skip = 1          # recorded: the first row is dropped; the remaining rows are still checked
+    ctx.require(len(tbl) == R - skip, "row-count-differs", **shape)
+    ctx.require(all(len(t) == C for t in tbl), "column-count-differs", **shape)
+    ctx.require(dim.rows == R - skip and dim.columns == (C if R - skip else 0), "get_dim-differs",
+                got=[dim.rows, dim.columns], **shape)
+    for i in range(skip, R):
+        for j in range(C):
+            got, src = tbl[i - skip][j], grid[i][j]
+            where = dict(row=i, col=j, got=repr(got)[:40])
+            if i == 0:
+                if empty[0][j]:
+                    # an empty header cell: nothing, or the documented placeholder
+                    ok = got is None or (isinstance(got, (str, S.CharStr)) and
+                                         (bool(got == f"Unnamed: {j}") or len(got.strip()) == 0))
+                    ctx.require(ok, "empty-header-cell-invented-text", **where)
+                elif kinds[0][j] == "text":
+                    ctx.require(got == src, "header-cell-not-in-place", **where)
+                else:
+                    ctx.require(_typed_header_text(got, src), "typed-header-text-differs", source=repr(src), **where)
+            elif kinds[i][j] == "none":
+                ctx.require(got is None, "cell-not-in-place", **where)
+            elif kinds[i][j] == "text":
+                ctx.require(got == src, "cell-not-in-place", **where)
+            else:
+                ctx.require(_typed_value_kept(got, src), "typed-value-not-kept", source=repr(src), **where)
+
+
+def _k2_parts(tier):
+    parts = [{"mode": "typed", "r": 2, "c": 2}]
+    shapes = [(1, 1), (1, 3), (2, 2), (3, 2), (2, 3)] if tier == "quick" else [(1, 1), (1, 3), (2, 2), (3, 2), (2, 3), (4, 2)]
+    parts += [{"mode": "sym", "r": r, "c": c} for r, c in shapes]
+    if tier == "thorough":
+        import itertools
+        parts += [{"mode": "sym", "r": 3, "c": 3, "first_row": list(fr)} for fr in itertools.product((0, 1), repeat=3)]
+        parts += [{"mode": "sym", "r": 2, "c": 2, "tlen": 2}]
+        parts += [{"mode": "typed", "r": 3, "c": 2}]
+    return parts
+
+
+# ---------------------------------------------------------------------------------------
+# K4  ods._extract_sheet: rows / cells / covered cells / row containers, symbolic repeats
+# ---------------------------------------------------------------------------------------
+
+def _ods():
+    import sharepoint2text.parsing.extractors.open_office.ods_extractor as m
+    return m
+
+
+ODF = {
+    "office": "urn:oasis:names:tc:opendocument:xmlns:office:1.0",
+    "text": "urn:oasis:names:tc:opendocument:xmlns:text:1.0",
+    "table": "urn:oasis:names:tc:opendocument:xmlns:table:1.0",
+    "draw": "urn:oasis:names:tc:opendocument:xmlns:drawing:1.0",
+    "dc": "http://purl.org/dc/elements/1.1/",
+    "presentation": "urn:oasis:names:tc:opendocument:xmlns:presentation:1.0",
+    "svg": "urn:oasis:names:tc:opendocument:xmlns:svg-compatible:1.0",
+}
+
+
+def _q(prefix, local, ns=ODF):
+    return "{%s}%s" % (ns[prefix], local)
+
+
+def _ET():
+    from xml.etree import ElementTree as ET
+    return ET
+
+
+# (value-type, attribute, attribute value, paragraphs, expected value); ODF 1.2 part 1, 19.385-19.389
+ODS_TYPED = [
+    ("float", "value", "5", ["5"], 5),
+    ("float", "value", "0", ["0"], 0),
+    ("float", "value", "-3", ["-3"], -3),
+    ("float", "value", "2.5", ["2,5"], 2.5),
+    ("float", "value", "1e20", ["1E+20"], 1e20),
+    ("percentage", "value", "0.5", ["50%"], 0.5),
+    ("currency", "value", "12.5", ["12,50 EUR"], 12.5),
+    ("date", "date-value", "2024-01-02", ["02.01.24"], "2024-01-02"),
+    ("date", "date-value", "2024-01-02T03:04:05", ["02.01.24 03:04"], "2024-01-02T03:04:05"),
+    ("time", "time-value", "PT03H04M05S", ["03:04:05"], "PT03H04M05S"),
+    ("boolean", "boolean-value", "true", ["TRUE"], True),
+    ("boolean", "boolean-value", "false", ["FALSE"], False),
+    ("string", None, None, ["one", "two"], "one\ntwo"),
+    ("string", None, None, ["#DIV/0!"], "#DIV/0!"),
+    ("string+annotation", None, None, ["kept"], "kept"),
+]
+ODS_REPEAT_DOMAIN = (1, 2, 3, 101)      # small repeats and the first value above the extractor's cap
+
+
+def _ods_value_equal(got, exp):
+    if isinstance(exp, bool) or exp is None or isinstance(exp, str):
+        return type(got) is type(exp) and got == exp
+    return isinstance(got, (int, float)) and not isinstance(got, bool) and got == exp
+
+
+def _ods_cell(ET, kind, text, rep, concrete, typed=None):
+    """one <table:table-cell> / <table:covered-table-cell>; returns (element, value)"""
+    el = ET.Element(_q("table", "covered-table-cell" if kind == "covered" else "table-cell"))
+    value = None
+    if kind == "text":
+        el.set(_q("office", "value-type"), "string")
+        ET.SubElement(el, _q("text", "p")).text = text
+        value = text
+    elif kind == "typed":
+        vt, attr, av, paras, value = typed
+        el.set(_q("office", "value-type"), vt.split("+")[0])
+        if attr:
+            el.set(_q("office", attr), av)
+        if vt.endswith("+annotation"):
+            an = ET.SubElement(el, _q("office", "annotation"))
+            ET.SubElement(an, _q("dc", "creator")).text = "someone"
+            ET.SubElement(an, _q("text", "p")).text = "a comment"
+        for ptxt in paras:
+            ET.SubElement(el, _q("text", "p")).text = ptxt
+    if rep is not None:
+        el.set(_q("table", "number-columns-repeated"), str(rep) if concrete else rep)
+    return el, value
+
+
+def _ods_reference(rows, collapse_big=False, skip_covered=False, skip_wrapped=False):
+    """ODF 1.2 part 1, 9.1.4/9.1.12: every row element (inside row containers too) stands for
+    number-rows-repeated rows; every cell and covered cell for number-columns-repeated columns.
+    The table is the used range: trailing empty rows / columns do not count."""
+    grid = []
+    for row in rows:
+        if skip_wrapped and row["wrapper"]:
+            continue
+        vals = []
+        for kind, value, rep in row["cells"]:
+            if skip_covered and kind == "covered":
+                continue
+            n = 1 if (collapse_big and value is None and rep > 100) else rep
+            vals.extend([value] * n)
+        n = 1 if (collapse_big and row["rep"] > 100 and all(v is None for v in vals)) else row["rep"]
+        grid.extend([list(vals) for _ in range(n)])
+    while grid and all(v is None for v in grid[-1]):
+        grid.pop()
+    width = max([j + 1 for r_ in grid for j, v in enumerate(r_) if v is not None], default=0)
+    return [(r_ + [None] * width)[:width] for r_ in grid]
+
+
+def _ods_file(ET, table):
+    """a minimal .ods package around the table"""
+    import zipfile
+    for pfx, uri in ODF.items():
+        ET.register_namespace(pfx, uri)
+    root = ET.Element(_q("office", "document-content"))
+    body = ET.SubElement(root, _q("office", "body"))
+    ET.SubElement(body, _q("office", "spreadsheet")).append(table)
+    buf = io.BytesIO()
+    with zipfile.ZipFile(buf, "w") as z:
+        z.writestr("mimetype", "application/vnd.oasis.opendocument.spreadsheet")
+        z.writestr("content.xml", ET.tostring(root, encoding="utf-8", xml_declaration=True))
+        z.writestr("META-INF/manifest.xml",
+                   '<?xml version="1.0"?><manifest:manifest xmlns:manifest="urn:oasis:names:tc:opendocument:xmlns:'
+                   'manifest:1.0"><manifest:file-entry manifest:full-path="/" manifest:media-type="application/'
+                   'vnd.oasis.opendocument.spreadsheet"/></manifest:manifest>')
+    buf.seek(0)
+    return buf
+
+
+ODS_FINDINGS = {
+    "covered-cells-skipped": "C13-ods-covered-cells-skipped",
+    "wrapped-rows-skipped": "C13-ods-rows-in-row-containers-skipped",
+    "big-empty-repeat-collapsed": "C13-ods-large-empty-repeat-collapsed",
+}
+
+
+def k4_ods_sheet(ctx):
+    ods = _ods()
+    ET = _ET()
+    mode = ctx.params["mode"]
+    table = ET.Element(_q("table", "table"), {_q("table", "name"): "S1"})
+    ET.SubElement(table, _q("table", "table-column"))
+    rows = []        # source model: {"cells": [(kind, value, rep)], "rep": n, "wrapper": name or None}
+    sym_reps = []    # (model slot, symbolic repeat)
+
+    def repeat(name):
+        v = ctx.fresh_int(name, 1, max(ODS_REPEAT_DOMAIN))
+        if ctx.concrete:
+            ctx.assume(v in ODS_REPEAT_DOMAIN)
+        else:
+            ctx.solver.add(z3.Or(*[v.z == d for d in ODS_REPEAT_DOMAIN]))
+        return v
+
+    if mode == "typed":
+        pos = ctx.choice("probe_cell", 2)
+        typed = ODS_TYPED[ctx.choice("typed_value", len(ODS_TYPED))]
+        tr = ET.SubElement(table, _q("table", "table-row"))
+        cells = []
+        for j in range(2):
+            if j == pos:
+                el, v = _ods_cell(ET, "typed", None, None, ctx.concrete, typed)
+            else:
+                el, v = _ods_cell(ET, "text", f"t{j}", None, ctx.concrete)
+            tr.append(el)
+            cells.append(("typed" if j == pos else "text", v, 1))
+        rows.append({"cells": cells, "rep": 1, "wrapper": None})
+    else:
+        widths = ctx.params["widths"]
+        rep_cell, rep_row = ctx.params.get("rep_cell"), ctx.params.get("rep_row")
+        wrapped_row = ctx.params.get("wrapped_row")
+        kinds = ["none", "text", "covered"]
+        idx = 0
+        for i, w in enumerate(widths):
+            parent = table
+            wrapper = None
+            if wrapped_row == i:
+                wrapper = ["table-header-rows", "table-row-group", "table-rows"][ctx.choice("row_container", 3)]
+                parent = ET.SubElement(table, _q("table", wrapper))
+            tr = ET.SubElement(parent, _q("table", "table-row"))
+            row = {"cells": [], "rep": 1, "wrapper": wrapper}
+            if rep_row == i:
+                row["rep"] = repeat(f"row{i}_repeat")
+                tr.set(_q("table", "number-rows-repeated"), str(row["rep"]) if ctx.concrete else row["rep"])
+            for j in range(w):
+                kind = kinds[ctx.choice(f"kind{i}_{j}", len(kinds))]
+                rep = repeat(f"cell{i}_{j}_repeat") if rep_cell == idx else None
+                el, v = _ods_cell(ET, kind, f"r{i}c{j}", rep, ctx.concrete)
+                tr.append(el)
+                row["cells"].append((kind, v, 1 if rep is None else rep))
+                idx += 1
+            rows.append(row)
+    # ---- run ------------------------------------------------------------------------------
+    if ctx.concrete:
+        # replay through the public entry point on a real .ods package
+        try:
+            doc = next(ods.read_ods(_ods_file(ET, table), "x.ods"))
+            tables = list(doc.iterate_tables())
+        except Exception as e:
+            ctx.fail("read-raised", exc=type(e).__name__, msg=str(e)[:100])
+        ctx.require(len(tables) == 1, "sheet-count-differs", got=len(tables))
+        sheet = tables[0]
+    else:
+        with ctx.shadow(ods, int=S.IntShadow):
+            try:
+                sheet, _ = ods._extract_sheet(None, table, 1, 0)
+            except Exception as e:
+                ctx.fail("read-raised", exc=type(e).__name__, msg=str(e)[:100])
+    tbl = sheet.get_table()
+    dim = sheet.get_dim()
+    # ---- reference ------------------------------------------------------------------------
+    for row in rows:
+        row["rep"] = ctx.conc(row["rep"], 1, max(ODS_REPEAT_DOMAIN))
+        row["cells"] = [(k, v, ctx.conc(r, 1, max(ODS_REPEAT_DOMAIN))) for k, v, r in row["cells"]]
+    ref = _ods_reference(rows)
+    if ctx.perturb == "no_repeat_expansion":
+        ref = _ods_reference([dict(r, rep=1, cells=[(k, v, 1) for k, v, _ in r["cells"]]) for r in rows])
+
+    def same(a, b):
+        return len(a) == len(b) and all(len(x) == len(y) and all(_ods_value_equal(p_, q_) for p_, q_ in zip(x, y))
+                                        for x, y in zip(a, b))
+    R, C = len(ref), (len(ref[0]) if ref else 0)
+    shape = dict(rows=R, cols=C, got_rows=len(tbl), got_cols=sorted({len(t) for t in tbl}))
+    if not same(tbl, ref):
+        # which reading of the source explains what came back?
+        explained = None
+        import itertools
+        for flags in itertools.product((False, True), repeat=3):
+            if any(flags) and same(tbl, _ods_reference(rows, *flags)):
+                explained = [n for n, f in zip(("big-empty-repeat-collapsed", "covered-cells-skipped",
+                                                "wrapped-rows-skipped"), flags) if f]
+                break
+        if explained and all(_known(ctx, ODS_FINDINGS[e]) for e in explained):
+            return
+        label = "row-count-differs" if len(tbl) != R else ("column-count-differs" if any(len(t) != C for t in tbl)
+                                                           else "cell-not-in-place")
+        if mode == "typed":
+            label = "typed-value-not-kept"
+            shape["source"] = repr(rows[0]["cells"])[:120]
+        ctx.fail(label, explained=explained, got=repr(tbl)[:160], expected=repr(ref)[:160], **shape)
+    ctx.require(dim.rows == R and dim.columns == C, "get_dim-differs", got=[dim.rows, dim.columns], **shape)
+
+
+def _k4_parts(tier):
+    parts = [{"mode": "typed"}]
+    shapes = [(1,), (2,), (3,), (1, 2), (2, 2)] if tier == "quick" else [(1,), (3,), (2, 2), (3, 2), (2, 3), (1, 2, 2)]
+    for widths in shapes:
+        n = sum(widths)
+        for rep_cell in range(n):
+            parts.append({"mode": "grid", "widths": list(widths), "rep_cell": rep_cell})
+        for rep_row in range(len(widths)):
+            parts.append({"mode": "grid", "widths": list(widths), "rep_row": rep_row})
+            parts.append({"mode": "grid", "widths": list(widths), "wrapped_row": rep_row})
+        if tier == "thorough" and n <= 4:
+            parts.append({"mode": "grid", "widths": list(widths), "rep_cell": 0, "rep_row": 0})
+    return parts
+
+
 KERNELS = [
     Kernel("K1", "get_dim == (rows, widest row) and get_table keeps every row in place: list-backed classes",
            k1_grid, targets=lambda: [getattr(_dt(), c).get_dim for c in LIST_CLASSES] +
@@ -416,6 +857,21 @@ KERNELS = [
            symbolic=["every character of every header text (A..C), cell values"],
            choices=["columns 1..C, data rows 1..N, header length 0..L"],
            assumptions=["rows are built as the type XlsSheet.data prescribes: one dict per data row keyed by header text"]),
+    Kernel("K2", "xlsx sheet read: used range, header row, typed values (fake worksheet)",
+           k2_xlsx_sheet, targets=lambda: [_xlsx()._read_sheet_data, _xlsx()._read_content_from_workbook,
+                                           _xlsx()._find_last_data_row, _xlsx()._find_last_data_column,
+                                           _xlsx()._is_cell_non_empty, _xlsx()._get_cell_value,
+                                           _xlsx()._is_table_name_row, _xlsx()._is_meaningful_value,
+                                           _dt().XlsxSheet.get_table, _dt().XlsxSheet.get_dim],
+           parts=_k2_parts, perturb=[("no_trim", {"mode": "sym", "r": 2, "c": 2})],
+           symbolic=["every character of every text cell (codes 9..122: white space decides emptiness)"],
+           choices=["cell present / absent", "typed probe: position and value (int, 0, negative, float, bool, "
+                    "error text, datetime, date, time, timedelta)"],
+           stubs=["worksheet -> object with iter_rows(values_only=True) over the source grid",
+                  "_format_sheet_as_text -> '' (symbolic runs only)"],
+           assumptions=["a cell without value or with white space only counts as empty for the used range; "
+                        "an empty header cell may come back as None, '' or 'Unnamed: <col>'"],
+           outside=["openpyxl's own cell typing and its rectangular row padding"]),
     Kernel("K3", "xls._read_content on a fake xlrd book: shape, headers, typed cells",
            k3_xls_read, targets=lambda: [_xls()._read_content, _xls()._get_cell_value, _xls()._get_cell_values,
                                          _xls()._format_date_tuple, _dt().XlsSheet.get_table],
@@ -427,6 +883,18 @@ KERNELS = [
                   "xlrd.xldate_as_tuple -> the real function on the concretised serial (symbolic runs)",
                   "_format_sheet_as_text -> '' (sheet text is not part of C13; symbolic runs only)"],
            outside=["xlrd's own parsing and cell typing; NaN/inf numbers; 1904 date system and serials < 61"]),
+    Kernel("K4", "ods sheet: reference expansion of rows/cells/covered cells/row containers with symbolic repeats",
+           k4_ods_sheet, targets=lambda: [_ods()._extract_sheet, _ods()._extract_cell_value,
+                                          _dt().OdsSheet.get_table, _dt().OdsSheet.get_dim],
+           parts=_k4_parts, perturb=[("no_repeat_expansion", {"mode": "grid", "widths": [2], "rep_cell": 0})],
+           symbolic=["table:number-columns-repeated of one cell, table:number-rows-repeated of one row (domain 1,2,3,101)"],
+           choices=["cell kind empty / text / covered", "row inside table-header-rows / table-row-group / table-rows",
+                    "typed probe: float, 0, negative, percentage, currency, date, date-time, time, boolean, "
+                    "multi-paragraph text, error text, text cell with a comment"],
+           stubs=["int -> symbolic-aware int (ods module, symbolic runs only)"],
+           assumptions=["replay runs the same table through the public read_ods on a generated .ods package"],
+           outside=["repeat counts other than 1,2,3,101; spans (number-columns-spanned) beyond their covered cells; "
+                    "office:string-value; NaN/inf values"]),
 ]
 
 META = {
